@@ -409,6 +409,20 @@ void convolve_2d_impl(SrcView const& src_view, DstView const& dst_view, Kernel c
     }
 }
 
+/// \brief Memory position, in a layout with the given channel mapping, of the channel with the given semantic (colour) index
+template <typename ChannelMapping>
+inline std::size_t physical_channel_index(std::size_t semantic_index)
+{
+    std::size_t result = 0;
+    std::size_t k = 0;
+    mp11::mp_for_each<ChannelMapping>([&](auto position)
+    {
+        if (k++ == semantic_index)
+            result = static_cast<std::size_t>(decltype(position)::value);
+    });
+    return result;
+}
+
 /// \ingroup ImageAlgorithms
 /// \brief convolve_2d can only use convolve_option_extend_zero as convolve_boundary_option
 ///  this is the default option and cannot be changed for now
@@ -430,11 +444,15 @@ void convolve_2d(SrcView const& src_view, Kernel const& kernel, DstView const& d
         typename color_space_type<DstView>::type
     >::value, "Source and destination views must have pixels with the same color space");
 
+    // nth_channel_view indexes channels by memory position: pair the channels of source and destination by colour,
+    // their layouts may order the channels differently (e.g. bgr8 source, rgb32f destination)
+    using src_mapping_t = typename channel_mapping_type<SrcView>::type;
+    using dst_mapping_t = typename channel_mapping_type<DstView>::type;
     for (std::size_t i = 0; i < src_view.num_channels(); i++)
     {
         detail::convolve_2d_impl(
-            nth_channel_view(src_view, i),
-            nth_channel_view(dst_view, i),
+            nth_channel_view(src_view, static_cast<int>(physical_channel_index<src_mapping_t>(i))),
+            nth_channel_view(dst_view, static_cast<int>(physical_channel_index<dst_mapping_t>(i))),
             kernel
         );
     }
